@@ -36,8 +36,8 @@ var c07Excluded = map[string]bool{"PLP": true, "RTI": true, "RTS": true, "RTL": 
 // after it (next joint state) or a violation.
 func c07Apply(x *cpuCtx, spec map[string]c03Spec, t c07Trans) (next byte, sig, what string) {
 	buf := make([]byte, 16)
-	if t.Via == 2 {
-		buf = buf[:0] // no room: the Append must be refused
+	if t.Via == 2 || t.Via == 4 {
+		buf = buf[:0] // no room (a zero-length window of a 16-byte array): the Append / the call must be refused
 	}
 	par := asm.NewEmitter(buf, false)
 	par.SetBase(c07Base)
@@ -48,7 +48,7 @@ func c07Apply(x *cpuCtx, spec map[string]c03Spec, t c07Trans) (next byte, sig, w
 	e := par
 	if t.Via == 3 {
 		e = par.Clone(buf[par.Len():]) // the clone emits into the free tail of the parent's own buffer
-	} else if t.Via != 0 {
+	} else if t.Via != 0 && t.Via != 4 {
 		e = par.Clone(make([]byte, 16))
 	}
 	cpuP := t.Tracked & 0x30 // the CPU's m and x mirror the assumed widths (relation R)
@@ -152,6 +152,20 @@ func c07Apply(x *cpuCtx, spec map[string]c03Spec, t c07Trans) (next byte, sig, w
 		}
 		return t.Tracked, "", ""
 	}
+	if t.Via == 4 {
+		// made directly on an emitter without room: an instruction cannot be emitted; refused or not, no
+		// code exists, so the tracked widths must still be those the CPU has
+		if sp.label || t.Method == "AssumeREP" || t.Method == "AssumeSEP" {
+			return t.Tracked, "", ""
+		}
+		if e.Len() != 0 {
+			return 0, "unexplained:emitted-without-room:" + t.Method, fmt.Sprintf("%s: Len()=%d in a zero-length target", desc(), e.Len())
+		}
+		if byte(e.Flags()) != t.Tracked {
+			return 0, "unexplained:refused-call-changed-tracker:" + t.Method, fmt.Sprintf("%s: the call had no room (Len stays 0) but the tracked flags went from %02x to %02x; the CPU still has m=%d x=%d", desc(), t.Tracked, byte(e.Flags()), t.Tracked>>5&1, t.Tracked>>4&1)
+		}
+		return t.Tracked, "", ""
+	}
 	if pn != nil {
 		// a call the width rules allow was refused: nothing was emitted, so the relation between the emitted
 		// code and the CPU is not touched (whether the guard is the right one is C03's question)
@@ -222,9 +236,9 @@ func c07Transitions(methods []string) []c07Trans {
 		}
 	}
 	direct := len(ts)
-	for via := 1; via <= 3; via++ {
+	for via := 1; via <= 4; via++ {
 		for _, t := range ts[:direct] {
-			if via == 2 && (t.Method == "AssumeREP" || t.Method == "AssumeSEP") {
+			if (via == 2 || via == 4) && (t.Method == "AssumeREP" || t.Method == "AssumeSEP") {
 				continue // nothing is emitted: an empty Append fits anywhere
 			}
 			t.Via = via
